@@ -135,6 +135,26 @@ theorem execDualFrom_length (i : Nat) (env : Nat → R) (p : Prog R) (ds : List 
   | cons ins rest ih => simp only [Prog.execDualFrom, ih, List.length_append, List.length_cons,
       List.length_nil]; omega
 
+/-- putting `Trace::variable(env i)` in for input `i` is the seeded run -/
+theorem execDualWith_mkVar (i : Nat) (env : Nat → R) (p : Prog R) (ds : List (Dual R)) :
+    Prog.execDualWithFrom i (Dual.mkVar (env i)) env p ds = Prog.execDualFrom i env p ds := by
+  induction p generalizing ds with
+  | nil => rfl
+  | cons ins rest ih =>
+    simp only [Prog.execDualWithFrom, Prog.execDualFrom]
+    have : (if ins.isVar && ds.length == i then Dual.mkVar (env i) else ins.execDual i env ds)
+        = ins.execDual i env ds := by
+      by_cases hc : (ins.isVar && ds.length == i) = true
+      · rw [if_pos hc]
+        simp only [Bool.and_eq_true, beq_iff_eq] at hc
+        obtain ⟨hv, hl⟩ := hc
+        have : ins = Instr.var := by cases ins <;> simp [Instr.isVar] at hv ⊢
+        subst this
+        simp [Instr.execDual, hl]
+      · rw [if_neg hc]
+    rw [this]
+    exact ih _
+
 theorem DualInv.init : DualInv ([] : List (Dual R)) [] [] :=
   ⟨rfl, rfl, fun _ => rfl⟩
 
